@@ -19,7 +19,8 @@ props.prop(
                 'keys must contain every input of the cached computation.',
     decides='that replacing values / refreshing a dataset / re-adding an attribute invalidates every memoised mask '
             '(not only the top-level one), that setters and move_to of memoised selections invalidate, and that the '
-            'flood-fill, histogram and profile caches are keyed (or reset) on everything their result depends on',
+            'flood-fill, histogram and profile caches are keyed (or reset) on everything their result depends on; that the '
+            'array reducers never write an argument (a possibly memoised mask) in place',
     not_decided='staleness through objects shared by reference (an ROI edited in place behind a memoised state), '
                 'writes to public attributes from outside the class, array contents mutated behind update_components',
     assumptions=['memo caches are only created by glue.core.decorators.memoize'])
